@@ -239,6 +239,60 @@ def run_c15(rep, tier, seed):
         rep.distinct.add((desc, h, w, json.dumps(value, default=str)[:120]))
         if len(rep.samples) < 8 and rnd.random() < 0.002:
             rep.samples.append(dict(term=desc, board=[h, w], value=json.loads(json.dumps(value, default=str))))
+    # history: ONE combinator object per term, used for boards of different shapes one after the other
+    # (equal areas next to each other, a shape followed by its transpose), serialising and decoding
+    seq_shapes = [(2, 3), (3, 2), (2, 3), (1, 6), (6, 1), (4, 6), (6, 4), (3, 8), (2, 2), (4, 1), (1, 4), (2, 2), (3, 4), (4, 3), (2, 6), (3, 4)]
+    for fams in item_terms(ps, rnd):
+        desc = "shared Grid(OneOf(" + ",".join(f.name for f in fams) + "))"
+        shared = [("Grid", ps.Grid(make_item(ps, fams))), ("Tupl", ps.Tupl(ps.DecInt(), ps.FixStr("/"), ps.Grid(make_item(ps, fams))))]
+        for (top, comb) in shared:
+            for rounds in range(2):
+                for (h, w) in seq_shapes:
+                    flat = gen_items(rnd, fams, h * w)
+                    g = [flat[y * w:(y + 1) * w] for y in range(h)]
+                    val = g if top == "Grid" else ([7], [], [g])
+                    n += 1
+                    f = roundtrip_case(ps, comb, val, h, w)
+                    if f is None and rounds == 1:
+                        # decode a text of another shape in between (decode-only step)
+                        try:
+                            comb.deserialize(ps.CombinatorEnv(height=w + 1, width=h), "0" * 4, 0)
+                        except Exception:
+                            pass
+                    if f:
+                        sig = "roundtrip-shared-instance:%s:%s" % (top, f["kind"])
+                        if sig not in seen:
+                            seen.add(sig)
+                            rp = write_replay("C15", "shared_" + f["kind"], dict(engine="codecs-c15", property="C15", term=desc, value=val, height=h, width=w, **f))
+                            rep.violation(sig, "%s | %s reused across board shapes, now %dx%d" % (f["detail"][:300], desc, h, w), rp)
+    for (top, mk) in (("Rooms", lambda: ps.Rooms()), ("ValuedRooms", lambda: ps.ValuedRooms(ps.OneOf(ps.HexInt(), ps.Spaces(-1, "g"))))):
+        comb = mk()
+        for rounds in range(2):
+            for (h, w) in [(4, 3), (2, 3), (4, 3), (3, 4), (2, 2), (3, 2), (2, 3), (1, 5), (5, 1)]:
+                rooms = random_rooms(rnd, h, w)
+                canon = canonical_rooms(rooms)
+                val, exp = (rooms, canon) if top == "Rooms" else ((rooms, list(range(len(rooms)))), None)
+                if top == "ValuedRooms":
+                    by = {tuple(sorted(map(tuple, r))): v for r, v in zip(rooms, range(len(rooms)))}
+                    exp = (canon, [by[tuple(r)] for r in canon])
+                n += 1
+                f = roundtrip_case(ps, comb, val, h, w, exp)
+                if rounds == 1 and f is None:
+                    # same size again after a decode-only step on ANOTHER size (A, decode B, A)
+                    bh, bw = (2, 3) if (h, w) != (2, 3) else (3, 3)
+                    try:
+                        q = random_rooms(rnd, bh, bw)
+                        tb = ps.Rooms().serialize(ps.CombinatorEnv(height=bh, width=bw), [q], 0)[1] + "g" * 9
+                        comb.deserialize(ps.CombinatorEnv(height=bh, width=bw), tb, 0)
+                    except Exception:
+                        pass
+                    f = roundtrip_case(ps, comb, val, h, w, exp)
+                if f:
+                    sig = "roundtrip-shared-instance:%s:%s" % (top, f["kind"])
+                    if sig not in seen:
+                        seen.add(sig)
+                        rp = write_replay("C15", "shared_" + f["kind"], dict(engine="codecs-c15", property="C15", term=top, value=val, height=h, width=w, **f))
+                        rep.violation(sig, "%s | one %s object reused across board sizes, now %dx%d" % (f["detail"][:300], top, h, w), rp)
     rep.evaluations += n
     if not rep.samples:
         rep.samples.append(dict(term="Grid(OneOf(...))", note="see rule"))
@@ -421,6 +475,32 @@ def run_c16(rep, tier, seed):
                         if type(e).__name__ == "Unrepresentable":
                             continue
                         viol("pzpr:%s:rejects:%s" % (m.name, cls), "%s: independent pzpr decoder rejects %s: %s" % (m.name, url, e), dict(url=url, **payload))
+    # history on the module-level codecs: encode a problem of size A, decode a URL of another size B,
+    # encode the same problem again: same text, and it still decodes to the problem
+    for m in mods:
+        for (A, Bs) in [((4, 3), (2, 3)), ((2, 3), (3, 2)), ((3, 3), (1, 5)), ((1, 4), (4, 1)), ((6, 4), (4, 6))]:
+            for _ in range(max(2, reps // 3)):
+                try:
+                    pa = m.gen(rnd, *A)
+                    pb = m.gen(rnd, *Bs)
+                    if m.name == "yajilin":
+                        continue_ = False
+                    ub = m.enc(Bs[0], Bs[1], pb)       # produced first, so that the steps under test are exactly:
+                    u1 = m.enc(A[0], A[1], pa)         #   encode A
+                    m.dec(ub)                          #   decode B
+                                                       #   encode A again
+                    u2 = m.enc(A[0], A[1], pa)
+                    back = m.dec(u2)
+                except Exception as e:
+                    if m.name == "yajilin":
+                        continue        # clues >= 16 are a recorded finding
+                    viol("url:%s:history-exception:%s" % (m.name, type(e).__name__), "%s: encode %dx%d, decode %dx%d, encode %dx%d again raised %s: %s" % (m.name, A[0], A[1], Bs[0], Bs[1], A[0], A[1], type(e).__name__, e), dict(module=m.name, problem=pa))
+                    continue
+                rep.evaluations += 1
+                if u1 != u2:
+                    viol("url:%s:history-text-differs" % m.name, "%s: the URL of the same %dx%d problem changed after decoding a %dx%d URL: %s vs %s" % (m.name, A[0], A[1], Bs[0], Bs[1], u1, u2), dict(module=m.name, problem=pa))
+                elif m.name != "yajilin" and back != expected_of(m, A[0], A[1], pa):
+                    viol("url:%s:history-roundtrip" % m.name, "%s: after decoding another size the %dx%d problem no longer round-trips" % (m.name, A[0], A[1]), dict(module=m.name, problem=pa))
     # producers without decoder: star_battle, aquarium
     sb, aq = producers["star_battle"], producers["aquarium"]
     for n in (1, 2, 3, 5, 6):
@@ -619,14 +699,17 @@ def run_c17(rep, tier, seed):
                 viol("decode:%s:%s:%s" % (m.name, f["kind"], "fuzz-" + _shape_cls(h, w)), "%s on %r: %s" % (m.name, url2, f["detail"]), dict(module=m.name, url=url2))
         # depth family: boards consisting of one room
         if m.kind in ("rooms", "rooms+values"):
-            for n in ([8, 20, 40] if tier == "quick" else [8, 20, 40, 64]):
-                nb = ((n * (n - 1) + 4) // 5) * 2
-                url = "https://puzz.link/p?%s/%d/%d/%s%s" % (m.urlname, n, n, "0" * nb, "g" if m.kind == "rooms+values" else "")
+            dims = [(8, 8), (20, 20), (40, 40), (1, 1200), (1200, 1), (2, 1100)] + ([(64, 64), (1, 5000), (3, 2000)] if tier != "quick" else [])
+            for (hh, ww) in dims:
+                nb = ((ww - 1) * hh + 4) // 5 + (ww * (hh - 1) + 4) // 5
+                url = "https://puzz.link/p?%s/%d/%d/%s%s" % (m.urlname, ww, hh, "0" * nb, "g" if m.kind == "rooms+values" else "")
                 rep.evaluations += 1
-                out, f = decode_case(m, url, (n, n))
+                out, f = decode_case(m, url, (hh, ww))
                 outcomes[out] = outcomes.get(out, 0) + 1
+                if out != "problem" and not f:
+                    f = dict(kind="one-room-board-not-decoded", detail="%s: the border-free %dx%d board was not decoded (%s)" % (m.name, hh, ww, out))
                 if f:
-                    viol("decode:%s:%s:one-room-board" % (m.name, f["kind"]), "%s on a %dx%d one-room board: %s" % (m.name, n, n, f["detail"]), dict(module=m.name, url=url))
+                    viol("decode:%s:%s:one-room-board" % (m.name, f["kind"]), "%s on a %dx%d one-room board: %s" % (m.name, hh, ww, f["detail"]), dict(module=m.name, url=url))
     # library combinators on arbitrary text (through deserialize_problem)
     terms = []
     for fams in item_terms(ps, rnd):
